@@ -237,7 +237,8 @@ int pv_ev_count(int kind);
 const pv_event* pv_ev_find(int kind, int nth);
 bool pv_ledger_is_live(const void* p);
 int pv_ledger_live(void);
-void pv_ledger_forget_all(void);                         /* C18: tables that mix injected and libc allocation */
+void pv_ledger_forget_all(void);
+void pv_ledger_reclaim(int keep);                        /* after a reported leak: release the newest blocks so that later verdicts stay exact */                         /* C18: tables that mix injected and libc allocation */
 void pv_set_rand_script(const void* bytes, int n);
 void pv_set_rand_prng(void);
 
